@@ -264,6 +264,33 @@ class World:
                 self.stats['slot.nonfinite_retired'] += 1
                 self.retire(s)
 
+    def resync(self):
+        """After an oracle failure that the checked property does not own:
+        take the real state as the new starting point (every coherent table's
+        observation becomes its model, incoherent ones and all suspended
+        readers leave, the current error profile becomes the expected one) so
+        that the rest of the schedule still runs and the property's own
+        oracles are still evaluated from a consistent state."""
+        from biom.err import geterr
+        probe = self.absent_id()
+        for s in list(self.pool):
+            try:
+                bad = coherence(s.real, probe)
+                snap = None if bad else Snap(s.real)
+            except Exception:  # noqa
+                snap = None
+            if snap is None or not np.isfinite(snap.m).all():
+                self.retire(s)
+                continue
+            if diff_ref(snap, s.ref):
+                # this table is not what its model says: the expectations of
+                # readers suspended over it are void too
+                self.drop_readers(s)
+                s.ref = ref_from_snap(snap, s.ref)
+            s.group_md_baseline()
+        self.cfg['_errprofile'] = dict(geterr())
+        self.stats['resync'] += 1
+
     def check_errprofile(self):
         from biom.err import geterr
         want = self.cfg.get('_errprofile') or DEFAULT_PROFILE
